@@ -127,6 +127,9 @@ func registerNatives(e *Engine) {
 		ex.forkReads = ex.term(args[0]).IsTrue()
 		return nil
 	})
+	vp("EndPath", func(ex *Exec, site ssa.Instruction, args []Value) Value {
+		panic(pathEnd{kind: endReturn})
+	})
 	vp("ExpectPanic", func(ex *Exec, site ssa.Instruction, args []Value) Value {
 		ex.expectPanic = ex.argName(args[0])
 		return nil
@@ -426,6 +429,13 @@ func registerNatives(e *Engine) {
 			v.Elems = append(v.Elems, ex.newObj(st, ex.concStr(p)))
 		}
 		return &GSlice{Vec: v, Len: len(parts), Cap: len(parts)}
+	}
+	n["encoding/hex.DecodeString"] = func(ex *Exec, site ssa.Instruction, args []Value) Value {
+		b, err := hex.DecodeString(conc(ex, args[0], "hex.DecodeString"))
+		if err != nil {
+			return Tuple{Bytes{}, ex.opaqueError("hex.DecodeString")}
+		}
+		return Tuple{ex.bytesOfConst(b), (*Iface)(nil)}
 	}
 	n["strconv.ParseUint"] = func(ex *Exec, site ssa.Instruction, args []Value) Value {
 		s := conc(ex, args[0], "strconv.ParseUint")
